@@ -526,7 +526,7 @@ func runC08R4(c *eng.Ctx, r *eng.RuleCtx) {
 	info := f.Pkg.TypesInfo
 	filterResult := p.Field(pkgKemT, "ObjectAndFilterResult", "FilterResult")
 	calc := p.ExtObject(full("pkg/utils/checksum"), "CalculateChecksum")
-	objPrm := fobj.Type().(*types.Signature).Params().At(3)
+	objPrm := paramLike(fobj.Type().(*types.Signature), 3, typeNamed("unstructured", "Unstructured"))
 	n := 0
 	eng.InspectNoLit(f.Decl.Body, func(m ast.Node) bool {
 		as, ok := m.(*ast.AssignStmt)
